@@ -21,8 +21,8 @@ func genC20(t *rapid.T) Scenario {
 	for i := 0; i < n; i++ {
 		x := rapid.IntRange(0, 2).Draw(t, "x")
 		y := (x + 1 + rapid.IntRange(0, 1).Draw(t, "dy")) % 3
-		k := rapid.SampledFrom([]string{"register", "unregister", "cancel", "disconnect", "detail", "detail", "autoaccept", "payload", "payload",
-			"appear", "disappear", "cut", "register", "payload", "shutdown", "readdr", "readdr", "readdr"}).Draw(t, "op")
+		k := rapid.SampledFrom([]string{"register", "unregister", "cancel", "cancel", "disconnect", "disconnect", "detail", "detail", "autoaccept", "payload", "payload",
+			"appear", "disappear", "cut", "cut", "cut", "register", "register", "payload", "shutdown", "readdr", "readdr", "readdr"}).Draw(t, "op")
 		if k == "shutdown" && rapid.IntRange(0, 3).Draw(t, "reallyShutdown") != 0 {
 			k = "detail"
 		}
